@@ -128,14 +128,16 @@ TEXT_MODELLED = ['escape / unescape / strip / to_lossy_bytes / to_lossy_string a
 PROPS.update({
     'C10': dict(gens=['text'], coq_targets=['Props/C10.vo'], coqchk_modules=['Props.C10'], group='text', harness='c10', axioms_allowed=[],
         pre=['python3 tools/ms_tables.py work/ms_tables.txt'],
-        proved=['round trip for all strings the encoder handles safely (no caret, every character in some codepage, no 0x5E-trail character directly before a marker letter): induction over the string with the encoder state, any number and order of codepage switches',
-                'safe holds outside the known class; pure ASCII passes through byte for byte both ways; an unrepresentable character becomes ? and its neighbours are encoded exactly as without it; the fast path is unobservable',
-                'the regenerated letter -> codepage table is LFS\'s assignment (1252 1253 1251 1250 1254 1257 932 936 949 950, ^8 = 1252 kept in text); no BOM sniffing'],
-        modelled=TEXT_MODELLED + ['encoding_rs code tables are an ORACLE (Section hypotheses enc_shape, dec_nil, dec_ascii_cons, dec_enc_app), validated on every Unicode scalar below U+30000 x 10 codepages each run; the implementation\'s per-letter tables are compared with Microsoft\'s cp125x/932/936/949/950 tables (Python codecs) on all 62 984 defined entries, with a fixed tolerance list (cp932: 4 private-use single bytes; cp950: 250 pairs in rows C6A1-C8FE where WHATWG Big5 includes HKSCS)'],
-        assumptions=['totality of the Rust functions is tested (every byte after every marker, random bytes), the Gallina model is total by construction']),
+        proved=['round trip for ALL strings the encoder handles - every non-ASCII character in some codepage; carets allowed (escaped carets, colours incl. ^8, any caret not spelling a codepage marker) - by induction over the string with the encoder state and the decoder\'s left-to-right scan, any number and order of codepage switches; no condition on trail bytes (the former known class is inside the theorem since 68d499a)',
+                'every caret-free string of encodable characters is in that domain; pure ASCII passes through byte for byte both ways; an unrepresentable character becomes ? and its neighbours are encoded exactly as without it; the fast path is unobservable',
+                'the regenerated letter -> codepage table is LFS\'s assignment (1252 1253 1251 1250 1254 1257 932 936 949 950, ^8 = 1252 kept in text); no BOM sniffing; lead bytes regenerated from is_double_byte_lead are never ASCII and ^8 shares the default codepage\'s'],
+        modelled=TEXT_MODELLED + ['encoding_rs code tables are an ORACLE (Section hypotheses enc_shape, dec_nil, dec_ascii_cons, dec_enc_app, enc_two_lead, enc_one_nolead, dec_prop), validated on every Unicode scalar below U+30000 x 10 codepages each run (the lead-byte and ^8 hypotheses by the model driver over the dumped tables: oraclecheck); the implementation\'s per-letter tables are compared with Microsoft\'s cp125x/932/936/949/950 tables (Python codecs) on all 62 984 defined entries, with a fixed tolerance list (cp932: 4 private-use single bytes; cp950: 250 pairs in rows C6A1-C8FE where WHATWG Big5 includes HKSCS)',
+                                  'an independent reference decoder written from the property text (left to right, DBCS-aware, LFS tables) is compared with the implementation on marker-rich byte strings'],
+        assumptions=['totality of the Rust functions is tested (every byte after every marker, random bytes), the Gallina model is total by construction',
+                     'a lone (unescaped) caret directly before a character that needs a codepage switch is outside the round-trip domain: the bytes ^ ^X are by LFS\'s rules an escaped caret followed by X']),
     'C12': dict(gens=['text'], coq_targets=['Props/C12.vo'], coqchk_modules=['Props.C12'], group='text', harness='c12', axioms_allowed=[],
         proved=['unescape (escape s) = s for every string; escaped output contains no reserved character; strip = exactly the colour tokens removed (token-level specification), idempotent, escaped carets untouched; fast paths unobservable',
-                'composition escape -> to_lossy_bytes -> to_lossy_string -> unescape: proved for ASCII text without carets (c12_wire_composition_partial), refuted in general with a machine-checked witness "^L" (c12_caret_marker_refuted)'],
+                'wire composition at FULL strength (c12_wire_composition): escape -> to_lossy_bytes -> to_lossy_string -> unescape is the identity on every string whose non-ASCII characters exist in some codepage - carets, reserved characters, colours incl. ^8, carets before codepage letters, 0x5E trail bytes (the two former known findings, repaired by 68d499a, are inside the theorem)'],
         modelled=TEXT_MODELLED),
 })
 LEVEL_TEXT.update({
